@@ -166,15 +166,26 @@ def laziness(specs):
     return "lazy" if z and not l_ else "mixed" if z else "eager"
 
 
-def check(op, specs):
-    """-> ('discard', reason) | None | (sig, msg)"""
+def check(op, specs, alias=0):
+    """alias (dyads, both lists): 1 = the very same object is passed as both operands,
+    2 = the second operand is a deep_copy of the first (what `:` leaves on the stack).
+    -> ('discard', reason) | None | (sig, msg)"""
+    if alias and len(specs) == 2 and is_list(specs[0]):
+        specs = [specs[0], specs[0]]
+    else:
+        alias = 0
     try:
         want = expected(op, specs)
     except Discard as d:
         return ("discard", str(d))
-    tag = f"{shape_of(specs)}:{laziness(specs)}"
+    tag = f"{shape_of(specs)}:{laziness(specs)}" + (":same-object" if alias == 1 else ":copy-of-lhs" if alias == 2 else "")
     try:
-        st_ = run_el(op, [harness.build_value(s) for s in specs])
+        vals = [harness.build_value(s) for s in specs]
+        if alias == 1:
+            vals[1] = vals[0]
+        elif alias == 2:
+            vals[1] = harness.vyxal.helpers.deep_copy(vals[0])
+        st_ = run_el(op, vals)
         got = [norm(x, cap=2000) for x in st_]
     except (harness.FuelExhausted, harness.Inconclusive):
         return ("discard", "vectorised call ran out of budget")
@@ -241,20 +252,25 @@ def _shard(rec, arg):
 
 def _one(rec, op, ar, kinds, seed, n):
     if True:
-        def t(args):
+        def t(args, alias):
             specs = list(args)
-            r = check(op, specs)
+            if not (alias and len(specs) == 2 and is_list(specs[0])):
+                alias = 0
+            else:
+                specs = [specs[0], specs[0]]
+            r = check(op, specs, alias)
             if r and r[0] == "discard":
                 rec.discard(r[1])
                 rec.classes[f"discarded {op}"] += 1
                 return
-            rec.case(key=(op, repr(specs)), nontrivial=_nontrivial(specs), cls=[f"el {op}", "shape " + shape_of(specs), laziness(specs)])
+            rec.case(key=(op, repr(specs), alias), nontrivial=_nontrivial(specs),
+                     cls=[f"el {op}", "shape " + shape_of(specs), laziness(specs)] + (["aliased operands"] if alias else []))
             if r:
-                rec.fail(r[0], {"op": op, "specs": _tolist(specs)}, r[1])
+                rec.fail(r[0], {"op": op, "specs": _tolist(specs), "alias": alias}, r[1])
             elif len(rec.samples) < 3 and _nontrivial(specs) and len(specs) == 2:
                 rec.sample({"element": op, "args": _tolist(specs)})
 
-        campaign.hyp_run(t, {"args": args_st(ar, kinds)}, seed + sum(map(ord, op)), n)
+        campaign.hyp_run(t, {"args": args_st(ar, kinds), "alias": st.sampled_from([0, 0, 0, 1, 2])}, seed + sum(map(ord, op)), n)
 
 
 def run(rec, tier, seed):
@@ -294,7 +310,7 @@ def replay(case):
     specs = [_totuple(s) for s in case["specs"]]
     if len(specs) != ops[op][0] or not any(is_list(s) for s in specs):
         return None
-    r = check(op, specs)
+    r = check(op, specs, case.get("alias", 0) if case.get("alias", 0) in (0, 1, 2) else 0)
     if r and r[0] == "discard":
         return None
     return r
